@@ -41,6 +41,11 @@ P = {
   COMMON_NOTE,
   "Lean 4 proof (replacer = single-pass spec, field exactness) + differential correspondence on marker-laden layouts",
   "DESIGN.md §5 C18"),
+ "C07": (True,
+  "Lean model of checkCertConstraint / CertificateConstraint.Check / Step.CheckCertConstraints over an x509 oracle (parsed attributes + chain verdict); theorems (see evidence for the list checked on this run): exact-set semantics of every attribute, order independence, subset and superset rejected, acceptance implies chain AND all five attributes against one and the same constraint, no constraints = reject, completeness under a wildcard root constraint, untrusted chain = reject. Every run mints real certificates with crypto/x509 in 11 chain shapes with generated attribute lists and 0-3 constraints in all forms and compares Check / CheckCertConstraints / VerifyCertificateTrust with the model fed with the stdlib-parsed attributes and the ground truth of how the chain was built (pools via LoadLayoutCertificates).",
+  COMMON_NOTE + "X.509 path validation itself is Go's crypto/x509 (oracle); its verdict is compared with the construction ground truth on every case.",
+  "Lean 4 proof (constraint decision logic) + differential correspondence on minted certificate chains",
+  "DESIGN.md §5 C07"),
 }
 
 ALL = ["C%02d" % i for i in range(1, 21)]
